@@ -423,6 +423,32 @@ theorem implements_complete_generated (D : Decls) (d : DynT) (ims : List Meth)
     (h : implements D d ims = true) : implementsY Generated.C05.facts D d.t (sigList ims) = true :=
   implements_complete _ (by rw [facts_tie]; rfl) D d ims h
 
+/-- the interpreter's and the specification's reading of an interface type (own methods and
+    embedded interfaces, to any depth) list the same names -/
+theorem iface_methods_names (D : Decls) (i : Nat) (k : String) :
+    k ∈ (ifaceMethodsY D i).map (·.1) ↔ k ∈ (ifaceMethods D i).map (·.name) := iface_names_eq D k _ i
+
+/-- **assignment to a declared interface type**: whatever Go accepts, `implements()` accepts
+    (embedded interfaces included) -/
+theorem implements_iface_complete (F : Facts) (hF : F.containsNamesOnly = true) (D : Decls) (d : DynT) (i : Nat)
+    (h : implements D d (ifaceMethods D i) = true) : implementsY F D d.t (ifaceMethodsY D i) = true := by
+  unfold implementsY containsY
+  unfold implements at h
+  rw [List.all_eq_true] at *
+  intro k hk
+  have hkn : k.1 ∈ (ifaceMethodsY D i).map (·.1) := List.mem_map.mpr ⟨k, hk, rfl⟩
+  obtain ⟨im, him, hin⟩ := List.mem_map.mp ((iface_methods_names D i k.1).mp hkn)
+  have := h im him
+  rw [List.any_eq_true] at this
+  obtain ⟨m, hm, hms⟩ := this
+  simp only [Bool.and_eq_true, beq_iff_eq] at hms
+  have hn := methodset_complete D d m hm
+  obtain ⟨p, hp, hpn⟩ := List.mem_map.mp hn
+  rw [List.any_eq_true]
+  refine ⟨p, hp, ?_⟩
+  simp only [hF, Bool.true_or, Bool.and_true, beq_iff_eq]
+  rw [hpn, hms.1, hin]
+
 /-- every method of the type's method set that the interface names has the interface's signature -/
 def sigAgree (D : Decls) (d : DynT) (ims : List Meth) : Bool :=
   ims.all (fun im => (methodSet D d).all (fun m => m.name != im.name || m.sig == im.sig))
